@@ -75,7 +75,9 @@ def dump_with_h(o):
     return lines
 
 
-def random_motion(rnd, lines):
+def random_motion(rnd, lines, straddle=False):
+    """a grid rotation followed by a translation inside the coordinate field; with `straddle` the structure is placed across
+    a value where the width of the coordinate field changes (-100.000, 1000.000, ...) on one axis"""
     rots = pdbgen.rotations24()
     m = rots[rnd.randrange(24)]
     rl = pdbgen.rotate(lines, m)
@@ -85,6 +87,12 @@ def random_motion(rnd, lines):
         a, b = -999.0 - lo, 9999.0 - hi
         t.append(round(rnd.choice([rnd.uniform(a, b), rnd.uniform(-50, 50), round(rnd.uniform(-20, 20)) * 2.51, 0.0]), 3))
         t[-1] = max(min(t[-1], b), a)
+    if straddle:
+        ax = rnd.randrange(3)
+        lo, hi = ((x0, x1), (y0, y1), (z0, z1))[ax]
+        # a point of the structure on that axis lands on the boundary, so that there are atoms on either side of it
+        t[ax] = round(rnd.choice([-100.0, 1000.0, 1000.0 * rnd.randint(2, 9)]) - rnd.uniform(lo, hi), 3)
+        t[ax] = max(min(t[ax], 9999.0 - hi), -999.0 - lo)
     return pdbgen.translate(rl, *[round(v, 3) for v in t]), (m, t)
 
 
@@ -170,7 +178,7 @@ def run(ctx):
         bh, bf = heavy_obs(base), full_obs(base)
         nmot = 2 if ctx.quick() else 6
         for k in range(nmot):
-            ml, (m, t) = random_motion(rnd, lines)
+            ml, (m, t) = random_motion(rnd, lines, straddle=(k == 0))
             o = observe.run(pdbgen.text(ml), [], want_text=False)
             ctx.case(key=(name, k, tuple(map(tuple, m)), tuple(t)), nontrivial=len(bf) > 0)
             ctx.count("motions")
@@ -196,7 +204,7 @@ def run(ctx):
             hl = dump_with_h(base)
             b2 = observe.run(pdbgen.text(hl), ["-k"], want_text=False)
             if not b2.error:
-                ml, (m, t) = random_motion(rnd, hl)
+                ml, (m, t) = random_motion(rnd, hl, straddle=rnd.random() < 0.5)
                 o2 = observe.run(pdbgen.text(ml), ["-k"], want_text=False)
                 ctx.case(key=(name, "keep", tuple(map(tuple, m)), tuple(t)))
                 ctx.count("keep-protons motions")
